@@ -10,7 +10,7 @@ from . import aclgen as AG
 from .common import Spec, Claims
 
 PROPERTY = "C04"
-BOUNDS = ("ACLs of 2..4 (quick) / 2..5 (thorough) lines selected (order kept, reversed and seeded random orders) from 6 relation templates over shared "
+BOUNDS = ("ACLs of 2..4 (quick) / 2..5 (thorough) lines selected (order kept, reversed and seeded random orders) from 7 relation templates (one IOS-only with a multi-port eq entry leaving a gap) over shared "
           "symbolic addresses X/24, host in X/24, free Y, ports p..p+2 and q: nested / duplicate / disjoint addresses, ports and "
           "protocols, remarks + headings + log + TCP flags, non-contiguous wildcards, address groups with members; sequence "
           "numbers none or symbolic; group_by none or '= '; both platforms.  All addresses, ports, numbers and the probe packet "
@@ -41,6 +41,10 @@ def _selections(tier, seed):
     return out
 
 
+class Skip(Exception):
+    """this structural combination does not exist (multi-port entries on NX-OS)"""
+
+
 def _flat_lines(acl):
     return [l.strip() for l in acl.line.split("\n")[1:]]
 
@@ -53,6 +57,10 @@ def _build(ctx, with_ops=True):
     gb = ctx.pick("group_by", ["", "= "]) if name == "mixed" else ""
     w = AG.World(ctx)
     specs = [AG.TEMPLATES[name][i] for i in sel]
+    if platform != "ios" and AG.ios_only(specs):
+        raise Skip()
+    if AG.ios_only(specs):
+        ctx.assume(V(w.p) + 2 <= 65535)
     seqs = None
     if numbered:
         s0 = ctx.fresh("s0", 1, 4000000000)
@@ -97,7 +105,10 @@ def _subsequence(after, before):
 
 
 def h_delete(ctx):
-    w, specs, rules, acl, platform, seqs = _build(ctx)
+    try:
+        w, specs, rules, acl, platform, seqs = _build(ctx)
+    except Skip:
+        return None
     pkt = Pkt(ctx)
     before = _flat_lines(acl)
     ctx.observe("before", acl.line)
@@ -148,7 +159,10 @@ def h_delete(ctx):
 def h_report(ctx):
     """C11: the ACL-level report lists each ACE some earlier ACE shadows exactly once, under the first such ACE."""
     from cisco_acl import Ace
-    w, specs, rules, acl, platform, seqs = _build(ctx)
+    try:
+        w, specs, rules, acl, platform, seqs = _build(ctx)
+    except Skip:
+        return None
     flat = acl.copy()
     flat.ungroup()
     AG.attach_groups(w, flat)
